@@ -1,4 +1,5 @@
 import RisorModel.C15.Lemmas
+import RisorModel.C15.LemmasW
 set_option linter.unusedSimpArgs false
 set_option linter.unnecessarySimpa false
 /-!
@@ -251,6 +252,145 @@ theorem truthy_iff_len_pos (v : Val) (n : Nat) (h : len v = some n) :
     truthy v = true ↔ n ≠ 0 := by
   cases v <;> simp [len] at h <;> subst h <;> simp [truthy, List.length_pos_iff]
 
+/-! ## maps and sets: `==` as the code computes it
+
+`equals` (used above) compares the canonical forms of maps and sets pointwise.  The code
+does something else: `Map.Equals` and `Set.Equals` test the sizes and then range over the
+LEFT operand's entries, looking each key up in the RIGHT operand (`equalsW`, Model.lean).
+The theorems below are about that loop, for all well-formed values (`wf`: distinct, sorted
+keys at every nesting level — what the harness's encoder produces from a real object). -/
+
+/-- `Equals` as written (size test + range-and-lookup loops, at every nesting level) computes
+    the same result as the pointwise comparison of canonical forms, for ALL well-formed
+    values `a b` of any types — so every law of `equals` in this file is a law of the loops. -/
+theorem equals_as_written (a b : Val) (ha : wf a = true) (hb : wf b = true) :
+    equalsW a b = equals a b := equalsWG_eq_equalsG toF a ha b hb
+
+/-- `==` as written is reflexive on every well-formed value (in particular every map and
+    every set, nested containers included). -/
+theorem eqW_refl (v : Val) (h : wf v = true) : equalsW v v = true := by
+  rw [equals_as_written v v h h]; exact eq_refl v
+
+/-- `==` as written is SYMMETRIC for all well-formed values of any types: the result of the
+    loop over `a`'s entries with lookups in `b` equals the result of the loop over `b`'s
+    entries with lookups in `a`. -/
+theorem eqW_symm (a b : Val) (ha : wf a = true) (hb : wf b = true) :
+    equalsW a b = equalsW b a := by
+  rw [equals_as_written a b ha hb, equals_as_written b a hb ha]; exact eq_symm a b
+
+/-- `Map.Equals` is reflexive: for every well-formed map (any keys, any nested values). -/
+theorem map_eq_refl (ks : List (List Nat)) (vs : List Val) (h : wf (.map ks vs) = true) :
+    equalsW (.map ks vs) (.map ks vs) = true := eqW_refl _ h
+
+/-- `Map.Equals` is symmetric: for all pairs of well-formed maps — equal or different key
+    sets, equal or different sizes, any values (nil included). -/
+theorem map_eq_symm (ks ks' : List (List Nat)) (vs vs' : List Val)
+    (h : wf (.map ks vs) = true) (h' : wf (.map ks' vs') = true) :
+    equalsW (.map ks vs) (.map ks' vs') = equalsW (.map ks' vs') (.map ks vs) :=
+  eqW_symm _ _ h h'
+
+/-- `Map.Equals` agrees with the entry-by-entry comparison: two well-formed maps are `==`
+    exactly when their key SETS are equal and the values under every key are `==`.  (A key
+    bound to nil on one side never matches an absent key on the other.) -/
+theorem map_eq_iff_entries (ks ks' : List (List Nat)) (vs vs' : List Val)
+    (h : wf (.map ks vs) = true) (h' : wf (.map ks' vs') = true) :
+    equalsW (.map ks vs) (.map ks' vs') = true ↔
+      (∀ k, k ∈ ks ↔ k ∈ ks') ∧
+      (∀ k v v', lookupKV k ks vs = some v → lookupKV k ks' vs' = some v' → equalsW v v' = true) :=
+  equalsWG_map_iff_entries toF h h'
+
+/-- The full statement "`==` on maps is transitive" … -/
+def C15_full_map_eq_trans : Prop :=
+  ∀ a b c : Val, ty a = .map → ty b = .map → ty c = .map → wf a = true → wf b = true → wf c = true →
+    equalsW a b = true → equalsW b c = true → equalsW a c = true
+
+/-- … is violated by the unchanged code through the known int/float defect:
+    `{"k": 2^53+1} == {"k": 2^53.0} == {"k": 2^53}` but `{"k": 2^53+1} != {"k": 2^53}`. -/
+theorem C15_counterexample_map_eq_trans : ¬ C15_full_map_eq_trans := by
+  intro h
+  have := h (.map [[107]] [.int 9007199254740993]) (.map [[107]] [.float (exactF 9007199254740992)])
+    (.map [[107]] [.int 9007199254740992]) rfl rfl rfl (by decide +kernel) (by decide +kernel)
+    (by decide +kernel) (by decide +kernel) (by decide +kernel)
+  revert this
+  decide +kernel
+
+/-- Outside the guard `==` as written is transitive, for all well-formed values (maps, sets,
+    lists of them, …). -/
+theorem eqW_trans (a b c : Val) (ha : wf a = true) (hb : wf b = true) (hc : wf c = true)
+    (gab : lossy a b = false) (gbc : lossy b c = false) (gac : lossy a c = false)
+    (hab : equalsW a b = true) (hbc : equalsW b c = true) : equalsW a c = true := by
+  rw [equals_as_written _ _ ha hb] at hab
+  rw [equals_as_written _ _ hb hc] at hbc
+  rw [equals_as_written _ _ ha hc]
+  exact C15_partial_eq_trans a b c gab gbc gac hab hbc
+
+/-- `Map.Equals` is transitive outside the guard: for all well-formed maps. -/
+theorem map_eq_trans (ks ks' ks'' : List (List Nat)) (vs vs' vs'' : List Val)
+    (h : wf (.map ks vs) = true) (h' : wf (.map ks' vs') = true) (h'' : wf (.map ks'' vs'') = true)
+    (g1 : lossy (.map ks vs) (.map ks' vs') = false) (g2 : lossy (.map ks' vs') (.map ks'' vs'') = false)
+    (g3 : lossy (.map ks vs) (.map ks'' vs'') = false)
+    (e1 : equalsW (.map ks vs) (.map ks' vs') = true) (e2 : equalsW (.map ks' vs') (.map ks'' vs'') = true) :
+    equalsW (.map ks vs) (.map ks'' vs'') = true := eqW_trans _ _ _ h h' h'' g1 g2 g3 e1 e2
+
+/-- The Spec as written (the same loops over exact-value equality) is transitive without any
+    guard, for all well-formed values. -/
+theorem spec_eqW_trans (a b c : Val) (ha : wf a = true) (hb : wf b = true) (hc : wf c = true)
+    (hab : xequalsW a b = true) (hbc : xequalsW b c = true) : xequalsW a c = true := by
+  unfold xequalsW at *
+  rw [equalsWG_eq_equalsG exactF a ha b hb] at hab
+  rw [equalsWG_eq_equalsG exactF b hb c hc] at hbc
+  rw [equalsWG_eq_equalsG exactF a ha c hc]
+  rw [xequals_congr a b hab c]; exact hbc
+
+/-- `Set.Equals` is reflexive and symmetric: for all well-formed sets. -/
+theorem set_eq_refl (xs : List Val) (h : wf (.set xs) = true) : equalsW (.set xs) (.set xs) = true :=
+  eqW_refl _ h
+
+theorem set_eq_symm (xs ys : List Val) (h : wf (.set xs) = true) (h' : wf (.set ys) = true) :
+    equalsW (.set xs) (.set ys) = equalsW (.set ys) (.set xs) := eqW_symm _ _ h h'
+
+/-- `Set.Equals` is transitive without any guard (set items are scalars of distinct hash keys;
+    an int never meets a float under one hash key): for all well-formed sets. -/
+theorem set_eq_trans (xs ys zs : List Val) (h : wf (.set xs) = true) (h' : wf (.set ys) = true)
+    (h'' : wf (.set zs) = true) (e1 : equalsW (.set xs) (.set ys) = true)
+    (e2 : equalsW (.set ys) (.set zs) = true) : equalsW (.set xs) (.set zs) = true := by
+  unfold equalsW at *
+  rw [equalsWG_set_iff_keys toF h h'] at e1
+  rw [equalsWG_set_iff_keys toF h' h''] at e2
+  rw [equalsWG_set_iff_keys toF h h'']
+  exact fun k => (e1 k).trans (e2 k)
+
+/-- `Set.Equals` agrees with item-by-item comparison: two well-formed sets are `==` exactly
+    when every item of each is `in` the other. -/
+theorem set_eq_iff_members (xs ys : List Val) (h : wf (.set xs) = true) (h' : wf (.set ys) = true) :
+    equalsW (.set xs) (.set ys) = true ↔
+      (∀ x ∈ xs, contains (.set ys) x = some true) ∧ (∀ y ∈ ys, contains (.set xs) y = some true) := by
+  unfold equalsW
+  rw [equalsWG_set_iff_keys toF h h']
+  simp only [wf, Bool.and_eq_true] at h h'
+  have hx : ∀ x ∈ xs, (hashKey x).isSome = true := fun x m => by rw [allHashable_mem h.1.1 x m]; rfl
+  have hy : ∀ y ∈ ys, (hashKey y).isSome = true := fun y m => by rw [allHashable_mem h'.1.1 y m]; rfl
+  constructor
+  · intro hk
+    constructor
+    · intro x m
+      rw [contains_set_iff (hx x m), ← hk, hashKeys_eq_map]
+      exact List.mem_map.2 ⟨x, m, rfl⟩
+    · intro y m
+      rw [contains_set_iff (hy y m), hk, hashKeys_eq_map]
+      exact List.mem_map.2 ⟨y, m, rfl⟩
+  · rintro ⟨h1, h2⟩ k
+    rw [hashKeys_eq_map, hashKeys_eq_map]
+    constructor
+    · intro m
+      obtain ⟨x, mx, rfl⟩ := List.mem_map.1 m
+      rw [← hashKeys_eq_map, ← contains_set_iff (hx x mx)]
+      exact h1 x mx
+    · intro m
+      obtain ⟨y, my, rfl⟩ := List.mem_map.1 m
+      rw [← hashKeys_eq_map, ← contains_set_iff (hy y my)]
+      exact h2 y my
+
 /-! ## sorted() -/
 
 /-- Whenever `sorted()` returns (no comparison failed), the result is a permutation of the
@@ -394,6 +534,25 @@ example : Sortable [.int 3, .int 1, .float (exactF 1), .byte 0] := by
 /-- the guard really fires on the finding's witness, and only there -/
 example : lossy (.int 9007199254740993) (.float (exactF 9007199254740992)) = true ∧
     lossy (.int 9007199254740992) (.float (exactF 9007199254740992)) = false := by decide +kernel
+
+/-- well-formed maps of the same size with different key sets and a nil value are not `==`,
+    in either direction, by the loop and by the canonical comparison alike:
+    `{"a": nil, "b": 1}` / `{"b": 1, "c": 2}` and `{"a": nil}` / `{"b": nil}` -/
+example : wf (.map [[97], [98]] [.nil, .int 1]) = true ∧ wf (.map [[98], [99]] [.int 1, .int 2]) = true ∧
+    equalsW (.map [[97], [98]] [.nil, .int 1]) (.map [[98], [99]] [.int 1, .int 2]) = false ∧
+    equalsW (.map [[98], [99]] [.int 1, .int 2]) (.map [[97], [98]] [.nil, .int 1]) = false ∧
+    equalsW (.map [[97]] [.nil]) (.map [[98]] [.nil]) = false ∧
+    equals (.map [[97]] [.nil]) (.map [[98]] [.nil]) = false := by decide +kernel
+
+/-- nested: a list holding a map holding a set, equal to a copy of itself by the loops -/
+example : wf (.list [.map [[97]] [.set [.int 1, .str [97]]]]) = true ∧
+    equalsW (.list [.map [[97]] [.set [.int 1, .str [97]]]]) (.list [.map [[97]] [.set [.int 1, .str [97]]]]) = true := by
+  decide +kernel
+
+/-- the hypotheses of `map_eq_trans` are satisfiable by maps that are really `==` -/
+example : lossy (.map [[107]] [.int 1]) (.map [[107]] [.float (exactF 1)]) = false ∧
+    equalsW (.map [[107]] [.int 1]) (.map [[107]] [.float (exactF 1)]) = true ∧
+    equalsW (.map [[107]] [.float (exactF 1)]) (.map [[107]] [.byte 1]) = true := by decide +kernel
 
 /-- a set built from `==` values of one type has one slot; of different types, two -/
 example : (mkSet [.int 1, .int 1, .float (exactF 1)]).map (fun s => s.map ty) = some [.float, .int] := by
